@@ -1,5 +1,6 @@
 import GitBugModel.Model.Cache
 import GitBugModel.Model.CacheStaged
+import GitBugModel.Model.Lru
 /-!
 # C11 — the cache always agrees with a cache rebuilt from the git data
 -/
@@ -420,3 +421,266 @@ example :
 
 end Staged
 end GitBugModel.Props.C11
+
+/-! C11, "evicting under memory pressure": what `evictIfNeeded` may drop. The coherence theorems
+(Props/C11, `Staged.coh_step`) let an `evict` action drop an instance only when nothing is staged
+on it; here the loop of `evictIfNeeded` itself is the model, and the theorems say that it keeps
+that promise in every session, whatever the cache size: an instance with staged operations is
+never dropped, so no edit is lost to eviction. -/
+namespace GitBugModel.Props.C11.LruEvict
+open GitBugModel.Lru
+
+/-! ## the loop -/
+
+theorem evictLoop_sublist (d : String → Bool) (n : Nat) (l : List String) :
+    (evictLoop d n l).Sublist l := by
+  induction l generalizing n with
+  | nil => cases n <;> simp [evictLoop]
+  | cons id rest ih =>
+    cases n with
+    | zero => simp [evictLoop]
+    | succ n =>
+      simp only [evictLoop]
+      split
+      · exact (ih (n + 1)).cons_cons id
+      · exact (ih n).cons id
+
+/-- an id with staged operations is never dropped -/
+theorem evictLoop_keeps_dirty (d : String → Bool) (n : Nat) (l : List String) (id : String)
+    (hin : id ∈ l) (hd : d id = true) : id ∈ evictLoop d n l := by
+  induction l generalizing n with
+  | nil => cases hin
+  | cons x rest ih =>
+    cases n with
+    | zero => simpa [evictLoop] using hin
+    | succ n =>
+      simp only [evictLoop]
+      rcases List.mem_cons.mp hin with rfl | hr
+      · simp [hd]
+      · split
+        · exact List.mem_cons_of_mem _ (ih (n + 1) hr)
+        · exact ih n hr
+
+/-- whatever is dropped was loaded and had nothing staged -/
+theorem evictLoop_dropped_clean (d : String → Bool) (n : Nat) (l : List String) (id : String)
+    (hin : id ∈ l) (hout : id ∉ evictLoop d n l) : d id = false := by
+  cases h : d id with
+  | false => rfl
+  | true => exact absurd (evictLoop_keeps_dirty d n l id hin h) hout
+
+/-- the loop drops as many as asked for, or everything that is left has staged operations -/
+theorem evictLoop_bound (d : String → Bool) (n : Nat) (l : List String) :
+    (evictLoop d n l).length + n ≤ l.length ∨ ∀ id ∈ evictLoop d n l, d id = true := by
+  induction l generalizing n with
+  | nil => cases n <;> simp [evictLoop]
+  | cons x rest ih =>
+    cases n with
+    | zero => left; simp [evictLoop]
+    | succ n =>
+      simp only [evictLoop]
+      split
+      · rename_i hx
+        rcases ih (n + 1) with h | h
+        · left; simp only [List.length_cons]; omega
+        · right; intro id hid
+          rcases List.mem_cons.mp hid with rfl | hr
+          · exact hx
+          · exact h id hr
+      · rcases ih n with h | h
+        · left; simp only [List.length_cons]; omega
+        · right; exact h
+
+/-- `evict_bound`: after `evictIfNeeded` at most `maxLoaded` instances are loaded, unless every
+loaded instance holds staged operations -/
+theorem evict_bound (max : Nat) (d : String → Bool) (l : List String) :
+    (evictIfNeeded max d l).length ≤ max ∨ ∀ id ∈ evictIfNeeded max d l, d id = true := by
+  rcases evictLoop_bound d (l.length - max) l with h | h
+  · left; simp only [evictIfNeeded]; omega
+  · right; exact h
+
+theorem evict_noop (max : Nat) (d : String → Bool) (l : List String) (h : l.length ≤ max) :
+    evictIfNeeded max d l = l := by
+  simp only [evictIfNeeded, Nat.sub_eq_zero_of_le h]
+  cases l <;> simp [evictLoop]
+
+/-! ## sessions -/
+
+/-- every instance with staged operations is loaded; every handle counted as current is loaded;
+no id is listed twice -/
+structure Inv (s : St) : Prop where
+  dirty : ∀ id ∈ s.dirty, id ∈ s.lru
+  held : ∀ id ∈ s.held, id ∈ s.lru
+  nodup : s.lru.Nodup
+
+theorem mem_add (l : List String) (x id : String) : x ∈ add l id ↔ x ∈ l ∨ x = id := by
+  simp only [add, List.mem_append, List.mem_filter, List.mem_singleton, bne_iff_ne, ne_eq]
+  constructor
+  · rintro (⟨h, _⟩ | h)
+    · exact Or.inl h
+    · exact Or.inr h
+  · rintro (h | h)
+    · by_cases hx : x = id
+      · exact Or.inr hx
+      · exact Or.inl ⟨h, hx⟩
+    · exact Or.inr h
+
+theorem nodup_add (l : List String) (id : String) (h : l.Nodup) : (add l id).Nodup := by
+  simp only [add]
+  refine List.nodup_append.mpr ⟨h.filter _, by simp, ?_⟩
+  intro a ha b hb
+  simp only [List.mem_filter, bne_iff_ne, ne_eq] at ha
+  simp only [List.mem_singleton] at hb
+  subst hb
+  exact ha.2
+
+theorem mem_touch (l : List String) (x id : String) : x ∈ touch l id ↔ x ∈ l := by
+  simp only [touch]
+  split
+  · rename_i h
+    rw [mem_add]
+    constructor
+    · rintro (h' | rfl)
+      · exact h'
+      · exact h
+    · exact Or.inl
+  · exact Iff.rfl
+
+theorem nodup_touch (l : List String) (id : String) (h : l.Nodup) : (touch l id).Nodup := by
+  simp only [touch]; split
+  · exact nodup_add l id h
+  · exact h
+
+theorem inv_settle_lru (s : St) (l : List String) (hn : l.Nodup) (hd : ∀ id ∈ s.dirty, id ∈ l) :
+    Inv ({ s with lru := l }.settle) := by
+  refine ⟨hd, ?_, hn⟩
+  intro id hid
+  simp only [St.settle, List.mem_filter, List.contains_eq_mem, decide_eq_true_eq] at hid
+  exact hid.2
+
+theorem inv_evict (s : St) (hn : s.lru.Nodup) (hd : ∀ id ∈ s.dirty, id ∈ s.lru) : Inv s.evict := by
+  simp only [St.evict]
+  refine inv_settle_lru s _ ((evictLoop_sublist _ _ _).nodup hn) ?_
+  intro id hid
+  exact evictLoop_keeps_dirty _ _ _ id (hd id hid) (by simpa [St.isDirty] using hid)
+
+theorem inv_resolve (s : St) (id : String) (h : Inv s) : Inv (resolve s id).1 := by
+  simp only [resolve]
+  split
+  · rename_i hin
+    refine ⟨fun x hx => (mem_touch _ _ _).mpr (h.dirty x hx), ?_, nodup_touch _ _ h.nodup⟩
+    intro x hx
+    apply (mem_touch _ _ _).mpr
+    dsimp only at hx
+    split at hx
+    · exact h.held x hx
+    · rcases List.mem_cons.mp hx with rfl | hx
+      · exact hin
+      · exact h.held x hx
+  · exact inv_evict _ (nodup_add _ _ h.nodup) (fun x hx => (mem_add _ _ _).mpr (Or.inl (h.dirty x hx)))
+
+theorem resolve_true_loaded (s : St) (id : String) (h : (resolve s id).2 = true) : id ∈ (resolve s id).1.lru := by
+  simp only [resolve] at h ⊢
+  split
+  · rename_i hin; exact (mem_touch _ _ _).mpr hin
+  · rename_i hin; simp [hin] at h
+
+theorem resolve_dirty (s : St) (id : String) : (resolve s id).1.dirty = s.dirty := by
+  simp only [resolve]; split <;> rfl
+
+theorem resolve_max (s : St) (id : String) : (resolve s id).1.max = s.max := by
+  simp only [resolve]; split <;> rfl
+
+theorem inv_step (s : St) (c : Call) (h : Inv s) : Inv (step s c).1 := by
+  cases c with
+  | resolve id => exact inv_resolve s id h
+  | new id =>
+    exact inv_evict _ (nodup_add _ _ h.nodup) (fun x hx => (mem_add _ _ _).mpr (Or.inl (h.dirty x hx)))
+  | edit id =>
+    simp only [step]
+    have h2 := inv_resolve _ id (inv_resolve s id h)
+    split
+    · rename_i hb
+      refine ⟨?_, fun x hx => (mem_touch _ _ _).mpr (h2.held x hx), nodup_touch _ _ h2.nodup⟩
+      intro x hx
+      apply (mem_touch _ _ _).mpr
+      dsimp only at hx
+      split at hx
+      · exact h2.dirty x hx
+      · rcases List.mem_cons.mp hx with rfl | hx
+        · exact resolve_true_loaded _ _ hb
+        · exact h2.dirty x hx
+    · exact h2
+  | commit id =>
+    simp only [step]
+    have h2 := inv_resolve _ id (inv_resolve s id h)
+    split
+    · refine ⟨?_, fun x hx => (mem_touch _ _ _).mpr (h2.held x hx), nodup_touch _ _ h2.nodup⟩
+      intro x hx
+      apply (mem_touch _ _ _).mpr
+      exact h2.dirty x (List.mem_filter.mp hx).1
+    · exact h2
+  | setSize n => exact inv_evict _ h.nodup h.dirty
+  | remove id =>
+    simp only [step]
+    have h1 := inv_resolve s id h
+    refine ⟨?_, ?_, h1.nodup.filter _⟩
+    · intro x hx
+      simp only [St.settle, List.mem_filter, bne_iff_ne, ne_eq] at hx ⊢
+      exact ⟨h1.dirty x hx.1, hx.2⟩
+    · intro x hx
+      simp only [St.settle, List.mem_filter, List.contains_eq_mem, decide_eq_true_eq, bne_iff_ne, ne_eq] at hx ⊢
+      exact hx.2
+
+theorem inv_init (m : Nat) : Inv (init m) := ⟨by simp [init], by simp [init], by simp [init]⟩
+
+theorem inv_run (s : St) (cs : List Call) (h : Inv s) : Inv (run s cs).1 := by
+  induction cs generalizing s with
+  | nil => exact h
+  | cons c cs ih => simp only [run]; exact ih _ (inv_step s c h)
+
+/-- `staged_never_evicted`: in every session — any calls, any cache sizes, set at any point — an
+instance that holds staged operations is loaded: eviction never drops an edit. -/
+theorem staged_never_evicted (m : Nat) (cs : List Call) (id : String)
+    (h : id ∈ (run (init m) cs).1.dirty) : id ∈ (run (init m) cs).1.lru :=
+  (inv_run _ cs (inv_init m)).dirty id h
+
+/-- staged operations leave an instance through its commit or its removal only -/
+theorem dirty_until_commit (s : St) (c : Call) (id : String) (h : id ∈ s.dirty) :
+    id ∈ (step s c).1.dirty ∨ c = .commit id ∨ c = .remove id := by
+  cases c with
+  | resolve x => left; simp only [step]; rw [resolve_dirty]; exact h
+  | new x => left; simpa [step, St.evict, St.settle] using h
+  | edit x =>
+    left; simp only [step]
+    split
+    · dsimp only; split
+      · rw [resolve_dirty, resolve_dirty]; exact h
+      · apply List.mem_cons_of_mem; rw [resolve_dirty, resolve_dirty]; exact h
+    · rw [resolve_dirty, resolve_dirty]; exact h
+  | commit x =>
+    by_cases hx : x = id
+    · right; left; rw [hx]
+    · left; simp only [step]
+      split
+      · simp only [List.mem_filter, bne_iff_ne, ne_eq]
+        rw [resolve_dirty, resolve_dirty]; exact ⟨h, fun e => hx e.symm⟩
+      · rw [resolve_dirty, resolve_dirty]; exact h
+  | setSize n => left; simpa [step, St.evict, St.settle] using h
+  | remove x =>
+    by_cases hx : x = id
+    · right; right; rw [hx]
+    · left; simp only [step, St.settle, List.mem_filter, bne_iff_ne, ne_eq]
+      rw [resolve_dirty]; exact ⟨h, fun e => hx e.symm⟩
+
+/-! non-vacuity: a session under pressure — size 2, three bugs, an edit left staged on the oldest:
+the clean ones go, the edited one stays -/
+example : (run (init 2) [.new "a", .edit "a", .new "b", .new "c", .resolve "a"]).1.lru = ["c", "a"] := by decide
+example : (run (init 2) [.new "a", .edit "a", .new "b", .new "c", .resolve "b"]).2.getLast? = some ⟨[false], true⟩ := by decide
+
+/-- the pinned tree made room before it wrote the excerpt of a new bug: when every loaded instance
+holds staged operations (or the size is 0) the new instance is the one that goes, and `New` fails
+after the bug was stored (found by the correspondence run, repaired in /repo) -/
+theorem pinned_new_fails_under_pressure :
+    (newPinned (run (init 1) [.new "a", .edit "a"]).1 "b").2.ok = false ∧ (newPinned (init 0) "b").2.ok = false := by decide
+
+end GitBugModel.Props.C11.LruEvict
